@@ -49,3 +49,4 @@ def run(ctx):
         raise AnalysisError('Composer.compose_node no longer returns the anchored node object for an alias')
     from . import round3 as R3
     R3.r01_10_tree_untouched(ctx, 'R18.8')
+    R3.r18_9_process_node_writes(ctx)
